@@ -453,7 +453,7 @@ def main():
         trusted_base=getattr(P, "TRUSTED_BASE", []),
         programs=ncases, disagreements_checked=ncases,
         traces_validated_against_impl=ncases,
-        explanation=getattr(P, "EXPLANATION", ""),
+        explanation=(getattr(P, "EXPLANATION", "") or getattr(P, "LEVEL_TEXT", "") or "see MANIFEST level_claimed.text"),
         verdicts=verdict_count, stats=stats, runs=runs, generated=gen_info, notes=notes,
         known_findings_hit=[e["id"] for e, *_ in known_hits],
         broken=[dict(kind=b[0], name=b[1]) for b in broken],
